@@ -175,6 +175,60 @@ theorem polled_is_mayPoll (ds : List PollFlags.Decl) : ∀ i, PollFlags.polledId
     · rw [if_pos h, if_neg (by rw [poll_flags_mark]; exact fun hn => hn h)]
     · rw [if_neg h, if_pos ((poll_flags_mark d).2 h)]
 
+/-- which positions `mayPoll` lists: those whose declaration is not marked as not polled -/
+theorem mem_mayPoll (ds : List PollFlags.Decl) : ∀ (i p : Nat),
+    p ∈ mayPoll i ds ↔ ∃ d, i ≤ p ∧ ds[p - i]? = some d ∧ ¬ MarkedNotPolled d := by
+  induction ds with
+  | nil => intro i p; simp [mayPoll]
+  | cons d ds ih =>
+    intro i p
+    simp only [mayPoll, List.mem_append, ih]
+    constructor
+    · rintro (h | ⟨d', h1, h2, h3⟩)
+      · by_cases hm : MarkedNotPolled d
+        · rw [if_pos hm] at h; cases h
+        · rw [if_neg hm] at h
+          simp only [List.mem_singleton] at h; subst h
+          exact ⟨d, Nat.le_refl _, by simp, hm⟩
+      · refine ⟨d', by omega, ?_, h3⟩
+        have : p - i = (p - (i + 1)) + 1 := by omega
+        rw [this, List.getElem?_cons_succ]; exact h2
+    · rintro ⟨d', h1, h2, h3⟩
+      by_cases hp : p = i
+      · subst hp
+        simp only [Nat.sub_self, List.getElem?_cons_zero, Option.some.injEq] at h2
+        subst h2
+        exact Or.inl (by rw [if_neg h3]; exact List.mem_singleton.2 rfl)
+      · have : p - i = (p - (i + 1)) + 1 := by omega
+        rw [this, List.getElem?_cons_succ] at h2
+        exact Or.inr ⟨d', by omega, h2, h3⟩
+
+/-- **marked_not_polled_never_read.**  The clause of the statement in its own words, end to end: a thread started
+(`startState`, `startMod`) for modules given by how their classes DECLARE the read functions (`decl`: polling enabled, slow
+interval, the declarations in parameter order, poll interval), with the lists of polled parameters collected as the real
+thread collects them (`PollFlags.polledIdx`, a module without polling has none) — in every environment, for any number of
+turns, whatever start values are written: every read function the thread calls, in the loop, in the start-up round or
+inside `writeInitParams`, belongs to a module with polling enabled and to a parameter that is NOT marked as not polled. -/
+theorem marked_not_polled_never_read (c : Consts) (env : Env) (n clock : Nat) (stamp : Nat → Nat → Nat)
+    (pending : Nat → List Nat) (decl : List (Bool × Nat × List PollFlags.Decl × Nat)) :
+    let σ := startState clock
+      (decl.map fun d => startMod d.1 d.2.1 (if d.1 then PollFlags.polledIdx 0 d.2.2.1 else []) d.2.2.2) stamp pending
+    ∀ e ∈ (thread c env n σ).evs, ∀ p, e.f = Fn.read p →
+      ∃ d dd, decl[e.m]? = some d ∧ d.1 = true ∧ d.2.2.1[p]? = some dd ∧ ¬ MarkedNotPolled dd := by
+  intro σ e he p hf
+  have hv := thread_ok c env n σ rfl e he
+  unfold ValidEvent at hv
+  rw [hf] at hv
+  obtain ⟨s, hs, h1, h2⟩ := hv
+  simp only [σ, startState, statics, List.getElem?_map, Option.map_eq_some_iff, List.map_map] at hs
+  obtain ⟨d, hd, rfl⟩ := hs
+  simp only [Function.comp, static, startMod] at h1 h2
+  rw [h1] at h2
+  simp only [if_true] at h2
+  rw [polled_is_mayPoll, mem_mayPoll] at h2
+  obtain ⟨dd, _, h3, h4⟩ := h2
+  exact ⟨d, dd, hd, h1, by simpa using h3, h4⟩
+
 /-! ## interval changes -/
 
 /-- **interval_change_next_wakeup (1).**  `setFastPoll` on a polled module installs the new interval and sets the
@@ -799,6 +853,18 @@ example : noPollB (traceOf exState (thread exConsts exEnv 30 exState).evs 1000 2
 
 /-- the monitor is not trivially true: a read of a parameter that is not polled is flagged -/
 example : noPollB (traceOf exState [⟨1001, 0, .read 5, 1⟩] 1000 2000 1) = false := by decide
+
+/-- `marked_not_polled_never_read` on a thread of one polled module declaring `read_0` plain, `read_1` with `@nopoll`, parameter 2
+without read function, parameter 3 a read handler key with `nopoll` outside, all four with start values: parameters 0 is
+read (several times), 1, 2 and 3 are written but never read -/
+example :
+    let σ := startState 1000 ([(true, 40, [⟨.plain, false, false⟩, ⟨.plain, true, false⟩, ⟨.none, false, false⟩,
+      ⟨.handler, false, true⟩], 10)].map fun d => startMod d.1 d.2.1 (if d.1 then PollFlags.polledIdx 0 d.2.2.1 else []) d.2.2.2)
+      (fun _ _ => 0) (fun _ => [0, 1, 2, 3])
+    (readsOf (thread exConsts exEnv 30 σ).evs 0 0).length ≥ 3 ∧
+    (∀ p ∈ [1, 2, 3], readsOf (thread exConsts exEnv 30 σ).evs 0 p = []) ∧
+    ((thread exConsts exEnv 30 σ).evs.map evKey).take 5 = [(0, .write 0), (0, .write 1), (0, .write 2), (0, .write 3), (0, .init)] := by
+  decide +kernel
 
 /-- `interval_change_next_wakeup`: switching fast polling on (interval 2) sets the event and the new interval -/
 example : (applyExt exState (.setFastPoll 0 true 2)).trig = true ∧
